@@ -205,6 +205,7 @@ pub fn replay_lane(v: &Value) -> Option<i32> {
                 Some(1)
             }
         }
+        "miri" => None,
         "alloc_failure" => {
             let t = trace_from_json(v).ok()?;
             let j = v["fail_alloc"].as_u64()? as i64;
@@ -404,4 +405,114 @@ fn parallel_map<T: Sync, R: Send>(items: &[T], nw: usize, f: impl Fn(&T) -> R + 
         }
     });
     slots.into_iter().map(|m| m.into_inner().unwrap().unwrap()).collect()
+}
+
+// ---------------------------------------------------------------------------
+// Miri lane (thorough tier): the same engine, in-process, interpreted — catches what neither the
+// ledger nor the standard library's precondition checks can see (reads of uninitialised slots,
+// out-of-bounds reads of plain data, use of freed blocks, invalid references).
+
+pub fn miri_lane(prop: Prop, seed: u64, procs: usize, runs_each: u64) -> (Option<String>, Value) {
+    use std::process::{Command, Stdio};
+    let mut kids = Vec::new();
+    for w in 0..procs {
+        let from = w as u64 * runs_each;
+        let to = from + runs_each;
+        let mut c = Command::new("cargo");
+        c.args(["+nightly", "miri", "run", "--offline", "--manifest-path", "/verif/sim/Cargo.toml", "--", "miri-runs", prop.name(), &seed.to_string(), &from.to_string(), &to.to_string()])
+            .env("MIRIFLAGS", "-Zmiri-ignore-leaks")
+            .env("CARGO_NET_OFFLINE", "true")
+            .env("RUST_BACKTRACE", "0")
+            .env_remove("CARGO_TARGET_DIR")
+            .stdin(Stdio::null())
+            .stdout(Stdio::piped())
+            .stderr(Stdio::piped());
+        match c.spawn() {
+            Ok(ch) => kids.push((from, to, ch)),
+            Err(e) => return (None, json!({"status": format!("skipped: cannot start cargo miri: {e}")})),
+        }
+    }
+    let mut runs = 0u64;
+    let mut ops = 0u64;
+    let mut violation: Option<String> = None;
+    let mut notes: Vec<String> = Vec::new();
+    for (from, to, ch) in kids {
+        let o = match ch.wait_with_output() {
+            Ok(o) => o,
+            Err(e) => {
+                notes.push(format!("wait failed: {e}"));
+                continue;
+            }
+        };
+        let out = String::from_utf8_lossy(&o.stdout).to_string();
+        let err = String::from_utf8_lossy(&o.stderr).to_string();
+        if let Some(l) = out.lines().find(|l| l.starts_with("MIRI-OK")) {
+            runs += to - from;
+            ops += l.split("ops=").nth(1).and_then(|x| x.trim().parse::<u64>().ok()).unwrap_or(0);
+            continue;
+        }
+        let last_run = out.lines().rev().find_map(|l| l.strip_prefix("RUN ").and_then(|x| x.trim().parse::<u64>().ok()));
+        if let Some(l) = out.lines().find(|l| l.starts_with("MIRI-VIOLATION ")) {
+            // a ledger violation seen under Miri: the recorded trace replays natively
+            let j: Value = serde_json::from_str(&l["MIRI-VIOLATION ".len()..]).unwrap_or(Value::Null);
+            if violation.is_none() {
+                let p = format!("{VERIF}/replays/{}-miri-{}.json", prop.name(), j["seed"].as_u64().unwrap_or(0));
+                let _ = std::fs::create_dir_all(format!("{VERIF}/replays"));
+                std::fs::write(&p, serde_json::to_string_pretty(&j).unwrap()).unwrap_or_else(|e| harness_error(&format!("{p}: {e}")));
+                println!("violation (Miri lane, ledger): {} — {}", j["violation"]["class"].as_str().unwrap_or(""), j["violation"]["detail"].as_str().unwrap_or(""));
+                violation = Some(p);
+            }
+            continue;
+        }
+        if err.contains("Undefined Behavior") {
+            let line = err.lines().find(|l| l.contains("Undefined Behavior")).unwrap_or("").to_string();
+            let wher = err.lines().skip_while(|l| !l.contains("Undefined Behavior")).find(|l| l.trim_start().starts_with("-->")).unwrap_or("").trim().to_string();
+            if violation.is_none() {
+                let run = last_run.unwrap_or(from);
+                let rseed = crate::rng::run_seed(seed, prop.num() ^ 0x4D49_5249, run);
+                let mut t = crate::props::gen_trace(prop, rseed);
+                t.ops.truncate(24);
+                let mut j = trace_to_json(&t);
+                j["lane"] = json!("miri");
+                j["violation"] = json!({"class": "miri-undefined-behavior", "detail": format!("{line} {wher}")});
+                let p = format!("{VERIF}/replays/{}-miri-ub-{}.json", prop.name(), rseed);
+                let _ = std::fs::create_dir_all(format!("{VERIF}/replays"));
+                std::fs::write(&p, serde_json::to_string_pretty(&j).unwrap()).unwrap_or_else(|e| harness_error(&format!("{p}: {e}")));
+                println!("violation (Miri lane): run {run}: {line} {wher}");
+                violation = Some(p);
+            }
+            continue;
+        }
+        // anything else (build failure, miri missing) is not a verdict about the property
+        let tail: Vec<&str> = err.lines().rev().take(3).collect();
+        notes.push(format!("miri process over runs {from}..{to} ended with {:?}: {}", o.status.code(), tail.join(" | ")));
+    }
+    let status = if notes.is_empty() { "completed".to_string() } else { format!("incomplete: {}", notes.join("; ")) };
+    (violation, json!({"status": status, "interpreted_runs": runs, "interpreted_operations": ops, "processes": procs, "flags": "-Zmiri-ignore-leaks (Stacked Borrows on)"}))
+}
+
+/// replay of a Miri-lane file: run exactly that trace under the interpreter
+pub fn replay_miri(file: &std::path::Path) -> i32 {
+    use std::process::Command;
+    let o = Command::new("cargo")
+        .args(["+nightly", "miri", "run", "--offline", "--manifest-path", "/verif/sim/Cargo.toml", "--", "exec", &file.to_string_lossy()])
+        .env("MIRIFLAGS", "-Zmiri-ignore-leaks")
+        .env("CARGO_NET_OFFLINE", "true")
+        .env_remove("CARGO_TARGET_DIR")
+        .output();
+    match o {
+        Ok(o) => {
+            let err = String::from_utf8_lossy(&o.stderr);
+            if err.contains("Undefined Behavior") {
+                println!("violation class=miri-undefined-behavior : {}", err.lines().find(|l| l.contains("Undefined Behavior")).unwrap_or(""));
+                1
+            } else if o.status.success() {
+                print!("{}", String::from_utf8_lossy(&o.stdout));
+                if String::from_utf8_lossy(&o.stdout).contains("violation class=") { 1 } else { println!("no violation: the trace runs clean under Miri on the current tree"); 0 }
+            } else {
+                harness_error(&format!("miri replay failed: {}", err.lines().rev().take(3).collect::<Vec<_>>().join(" | ")))
+            }
+        }
+        Err(e) => harness_error(&format!("cannot start cargo miri: {e}")),
+    }
 }
